@@ -181,12 +181,16 @@ def _vanishing_tail(U):
     return any(np.sum(np.abs(U[i + 1:, 0]) ** 2) < 1e-12 or abs(1 - np.sum(np.abs(U[:i, 0]) ** 2)) < 1e-12 for i in range(1, n))
 
 
-def _f43_trigger(U):
-    """F43: sun_compact treats small non-zero matrix elements as zero (np.isclose with numpy's default tolerances in
-    _su3_parameters; the unitarity tolerance 1e-6 reused for 'is this entry zero / one' tests in _build_staircase).
-    Trigger: U has an element with 1e-13 < |u| < 5e-3."""
-    a = np.abs(np.asarray(U))
-    return bool(np.any((a > 1e-13) & (a < 5e-3)))
+def _n8_trigger(U):
+    """C17 finding N8: Interferometer calls sun_compact with rtol = atol = 1e-6 (its unitarity tolerance) and the routine reuses
+    them for 'is this entry 0 / 1' special cases while the SU(2) factors are tested with a fixed 1e-10: unitaries with an
+    element, or a phase (deviation of a unit-modulus element from +-1, +-i), of size 1e-11..1e-5 are affected."""
+    a = np.abs(np.asarray(U)).ravel()
+    small = np.any((a > 1e-11) & (a < 1e-5))
+    z = np.asarray(U).ravel()
+    z = z[np.abs(np.abs(z) - 1) < 1e-5]
+    ph = np.abs(np.angle(z ** 4)) / 4 if len(z) else np.array([])
+    return bool(small or np.any((ph > 1e-11) & (ph < 1e-5)))
 
 
 def check_interf(ctx, case):
@@ -218,8 +222,8 @@ def check_interf(ctx, case):
             ctx.note(case, False, ["sun_compact_small_rejected"])
             return None
         ctx.note(case, True, labels)
-        if mesh == "sun_compact" and ("SU(2)" in msg or "determinant" in msg):
-            return ctx.fail("KF.sun_compact_numerically_fragile", "sun_compact raised %r on a valid %dx%d unitary of kind %s" % (msg[:80], k, k, case["kind"]))
+        if mesh == "sun_compact" and ("SU(2)" in msg or "determinant" in msg) and _n8_trigger(U):
+            return ctx.fail("sun_compact.tolerance_reused_for_special_cases", "sun_compact raised %r on a valid %dx%d unitary of kind %s" % (msg[:80], k, k, case["kind"]))
         return ctx.fail("interferometer.rejects_valid_unitary.%s" % mesh, "ValueError %r on a valid unitary" % msg[:120])
     except Exception as exc:  # pylint: disable=broad-except
         ctx.note(case, True, labels)
@@ -233,8 +237,8 @@ def check_interf(ctx, case):
         return ctx.fail("compiled_unknown_op.Interferometer", str(exc))
     d = map_diff(doc, got)
     if d > 1e-7:
-        if mesh == "sun_compact" and d < 2e-2:
-            return ctx.fail("KF.sun_compact_numerically_fragile", "sun_compact reconstructs a unitary that is off by %.3g (loose internal tolerances)" % d)
+        if mesh == "sun_compact" and d < 5e-6 and _n8_trigger(U):
+            return ctx.fail("sun_compact.tolerance_reused_for_special_cases", "sun_compact reconstructs a unitary that is off by %.3g (unitarity tolerance 1e-6 reused for its special cases)" % d)
         return ctx.fail("interferometer.wrong_unitary.%s" % mesh, "mesh %s (%s, drop_identity=%s, %d gates) implements a unitary that differs from U by %.3g" % (mesh, case["kind"], case["drop_identity"], len(specs), d))
     return None
 
